@@ -114,7 +114,7 @@ func goEnv() []string {
 
 // newReplayer compiles, from /repo's current working tree plus the native harness overlay, one test binary per
 // harness package of the check.
-func newReplayer(c *Check, ld *loaded) (*replayer, error) {
+func newReplayer(c *Check, ld *loaded, only map[string]bool) (*replayer, error) {
 	dir, err := os.MkdirTemp("", "verif-replay-")
 	if err != nil {
 		return nil, err
@@ -146,6 +146,9 @@ func newReplayer(c *Check, ld *loaded) (*replayer, error) {
 	ovPath := filepath.Join(dir, "overlay.json")
 	os.WriteFile(ovPath, ovj, 0o644)
 	for _, pkg := range pkgs {
+		if only != nil && !only[pkg] {
+			continue // no job of this package has a native side
+		}
 		bin := filepath.Join(dir, pkg+".test")
 		cmd := exec.Command("go", "test", "-c", "-tags", "verif", "-vet=off", "-overlay", ovPath, "-o", bin, pkgPathOf(pkg))
 		cmd.Dir = repoDir
@@ -283,7 +286,7 @@ func runReplayCmd(path string) int {
 		return 2
 	}
 	c := &Check{ID: m.Property, Files: m.Files}
-	rp, err := newReplayer(c, &loaded{hasWasm: strings.Contains(strings.Join(m.Files, ","), "wasm")})
+	rp, err := newReplayer(c, &loaded{hasWasm: strings.Contains(strings.Join(m.Files, ","), "c17")}, map[string]bool{m.Pkg: true})
 	if err != nil {
 		fmt.Fprintln(os.Stderr, err)
 		return 2
